@@ -129,7 +129,7 @@ func Recipients(w *world.World, rs []Recip) []age.Recipient {
 			same[r.Key] = rc
 			out = append(out, rc)
 		case "G":
-			out = append(out, world.GreaseRecipient{})
+			out = append(out, world.GreaseRecipient{Long: (len(out)+len(rs))%2 == 1})
 		case "L":
 			out = append(out, world.LabelledRecipient{Present: r.Labels.Present, Labels: r.Labels.Ls})
 		case "Z":
